@@ -47,7 +47,7 @@ def timeout(tier):
 
 
 def gen_acct(rng):
-    return rng.choice(["", "X", "00"]) + str(rng.randint(1, 9999999)) + rng.choice(["", "-1", "A", ".9"])
+    return rng.choice(["", "X", "00"]) + str(rng.randint(1, 9999999)) + rng.choice(["", "-1", "A", ".9", " 01", " 2 3", ";4"])
 
 
 def gen_date(rng):
